@@ -35,7 +35,8 @@ XSI_NIL = '{%s}nil' % XSI_NS
 BUILTINS = ['anyType', 'anySimpleType', 'anyAtomicType', 'untypedAtomic', 'string', 'normalizedString',
             'token', 'boolean', 'decimal', 'integer', 'nonPositiveInteger', 'negativeInteger', 'long',
             'int', 'short', 'byte', 'nonNegativeInteger', 'unsignedLong', 'unsignedInt',
-            'unsignedShort', 'unsignedByte', 'positiveInteger', 'double', 'date', 'anyURI']
+            'unsignedShort', 'unsignedByte', 'positiveInteger', 'double', 'date', 'anyURI',
+            'dateTime', 'gYear', 'gYearMonth']
 INT_BOUNDS = {
     'integer': (None, None), 'nonPositiveInteger': (None, 0), 'negativeInteger': (None, -1),
     'long': (-2 ** 63, 2 ** 63 - 1), 'int': (-2 ** 31, 2 ** 31 - 1), 'short': (-2 ** 15, 2 ** 15 - 1),
@@ -44,15 +45,25 @@ INT_BOUNDS = {
     'positiveInteger': (1, None)}
 ATOMIC_LEAVES = ['string', 'normalizedString', 'token', 'boolean', 'decimal', 'integer', 'nonPositiveInteger',
                  'negativeInteger', 'long', 'int', 'short', 'byte', 'nonNegativeInteger', 'unsignedLong',
-                 'unsignedInt', 'unsignedShort', 'unsignedByte', 'positiveInteger', 'double', 'date', 'anyURI']
+                 'unsignedInt', 'unsignedShort', 'unsignedByte', 'positiveInteger', 'double', 'date', 'anyURI',
+                 'dateTime', 'gYear', 'gYearMonth', 'date', 'dateTime']
 # python class name of an atomic value -> builtin local name
 CLASS_OF = {'bool': 'boolean', 'str': 'string', 'Decimal': 'decimal', 'float': 'double',
             'UntypedAtomic': 'untypedAtomic', 'XsdToken': 'token', 'NormalizedString': 'normalizedString',
-            'AnyURI': 'anyURI', 'Date10': 'date', 'Date': 'date', 'Integer': 'integer', 'Long': 'long',
+            'AnyURI': 'anyURI', 'Integer': 'integer', 'Long': 'long',
             'Int': 'int', 'Short': 'short', 'Byte': 'byte', 'NonPositiveInteger': 'nonPositiveInteger',
             'NegativeInteger': 'negativeInteger', 'NonNegativeInteger': 'nonNegativeInteger',
             'PositiveInteger': 'positiveInteger', 'UnsignedLong': 'unsignedLong', 'UnsignedInt': 'unsignedInt',
             'UnsignedShort': 'unsignedShort', 'UnsignedByte': 'unsignedByte'}
+
+
+# date-like prototypes depend on the XSD version of the schema (decoder._ATOMIC_VALUES['1.0'/'1.1'])
+DATE_CLASSES = {'1.0': {'Date10': 'date', 'DateTime10': 'dateTime', 'GregorianYear10': 'gYear',
+                        'GregorianYearMonth10': 'gYearMonth'},
+                '1.1': {'Date': 'date', 'DateTime': 'dateTime', 'GregorianYear': 'gYear',
+                        'GregorianYearMonth': 'gYearMonth'}}
+DATE_LIKE = ('date', 'dateTime', 'gYear', 'gYearMonth')
+CUR_VERSION = ['1.0']       # version of the schema whose values are being canonicalised
 
 
 def enc(s: str) -> str:
@@ -320,8 +331,22 @@ def gen_builtin_text(rng, b: str) -> str:
                                         '123456789012345678901234567890.5']))
     if b == 'double':
         return ws_wrap(rng, rng.choice(['1e3', '1.5', '-0', 'INF', '-INF', 'NaN', '0', '12', '1E-2', '.5', '4.']))
-    if b == 'date':
-        return ws_wrap(rng, rng.choice(['2001-01-01', '1999-12-31Z', '2020-02-29+05:30', '0001-01-01']))
+    if b in DATE_LIKE:
+        v11 = CUR_VERSION[0] == '1.1'
+        years = ['2001', '1999', '2020', '0001', '-0001', '-0044', '12345', '-12345'] + (['0000', '0000'] if v11 else [])
+        y = rng.choice(years)
+        tz = rng.choice(['', '', 'Z', '+05:30', '-08:00'])
+        leap = y in ('2020', '0000')
+        md = rng.choice(['01-01', '12-31', '03-15', '02-28'] + (['02-29'] if leap else []))
+        if b == 'date':
+            t = f'{y}-{md}{tz}'
+        elif b == 'dateTime':
+            t = f'{y}-{md}T{rng.choice(["00:00:00", "12:30:15", "23:59:59.5", "09:26:54.125"])}{tz}'
+        elif b == 'gYear':
+            t = y + tz
+        else:
+            t = f'{y}-{md[:2]}{tz}'
+        return ws_wrap(rng, t)
     if b == 'anyURI':
         return ws_wrap(rng, rng.choice(['http://example.com/a', 'urn:x:y', 'a/b', '']))
     if b == 'token':
@@ -346,6 +371,14 @@ def has_union(st) -> bool:
     if st[0] == 'U':
         return True
     return has_union(st[2])
+
+
+def has_datelike(st) -> bool:
+    if st[0] == 'B':
+        return st[1] in DATE_LIKE
+    if st[0] == 'U':
+        return any(has_datelike(m) for m in st[2])
+    return has_datelike(st[2])
 
 
 def st_variety(st) -> str:
@@ -395,6 +428,7 @@ def gen_text(rng, st, depth=0) -> str:
 
 class Gen:
     def __init__(self, rng, version: str, quick: bool = True):
+        CUR_VERSION[0] = version
         self.rng = rng
         self.sch = Schema(version)
         self.n = 0
@@ -420,6 +454,14 @@ class Gen:
     def atomic_builtin(self) -> tuple:
         r = self.rng
         return ('B', r.choice(ATOMIC_LEAVES + ['int', 'boolean', 'decimal', 'string', 'integer', 'double', 'token']))
+
+    def union_member_builtin(self) -> tuple:
+        """date-like members are left out of unions: their Python constructors depend on the XSD
+        version at the year bounds (the decoder model is version-agnostic there)"""
+        while True:
+            b = self.atomic_builtin()
+            if b[1] not in DATE_LIKE:
+                return b
 
     def restriction(self, base, named: bool) -> tuple:
         r = self.rng
@@ -475,13 +517,16 @@ class Gen:
             for _ in range(n):
                 q = r.random()
                 if q < 0.6:
-                    ms.append(self.atomic_builtin())
+                    ms.append(self.union_member_builtin())
                 elif q < 0.8:
-                    ms.append(self.restriction(self.atomic_builtin(), named=True))
-                elif q < 0.9 and depth == 0:
-                    ms.append(self.simple_type(depth + 1, allow=('atomic', 'list'), named=True))
+                    ms.append(self.restriction(self.union_member_builtin(), named=True))
                 else:
-                    ms.append(self.simple_type(depth + 1, allow=('atomic', 'union'), named=True))
+                    allow = ('atomic', 'list') if q < 0.9 and depth == 0 else ('atomic', 'union')
+                    while True:
+                        m = self.simple_type(depth + 1, allow=allow, named=True)
+                        if not has_datelike(m):
+                            break
+                    ms.append(m)
             if r.random() < 0.6:
                 ms.append(('B', r.choice(['string', 'token', 'string'])))
             # named/builtin members (memberTypes=) first, anonymous children after: all are named here
@@ -1105,7 +1150,7 @@ WS = ' \t\n\r'
 
 def canon_atom(v, toks: list[str], i: int, exact: bool) -> str:
     name = type(v).__name__
-    cls = CLASS_OF.get(name, '?' + name)
+    cls = CLASS_OF.get(name) or DATE_CLASSES[CUR_VERSION[0]].get(name) or '?' + name
     cands = [toks[i]] if exact and i < len(toks) else list(toks)
     if isinstance(v, bool):
         val = 'true' if v else 'false'
@@ -1137,7 +1182,7 @@ def canon_atom(v, toks: list[str], i: int, exact: bool) -> str:
                 break
         if val is None:
             val = 'hex:' + v.hex()
-    elif cls == 'date':
+    elif cls in DATE_LIKE or hasattr(type(v), 'fromstring') and not isinstance(v, str):
         val = None
         for t in cands:
             t = t.strip(WS)
@@ -1176,20 +1221,20 @@ def impl_err(e: Exception) -> str:
 class Impl:
     """one (schema, instance) pair loaded into the real code"""
 
-    def __init__(self, case: dict):
+    def __init__(self, case: dict, xs=None, proxy=None):
         import xmlschema
         import lxml.etree as LE
         from xml.etree import ElementTree as ET
         from elementpath import XPath2Parser, XPathContext, get_node_tree
         self.case = case
         cls = xmlschema.XMLSchema10 if case['version'] == '1.0' else xmlschema.XMLSchema11
-        self.xs = cls(case['xsd'])
-        self.proxy = self.xs.xpath_proxy
+        self.xs = cls(case['xsd']) if xs is None else xs
+        self.proxy = self.xs.xpath_proxy if proxy is None else proxy
         self.lib = case['lib']
         self.mod = LE if self.lib == 'lxml' else ET
         self.XPath2Parser, self.XPathContext, self.get_node_tree = XPath2Parser, XPathContext, get_node_tree
         try:
-            self.valid = not list(self.xs.iter_errors(case['xml']))
+            self.valid = self.xs.built and not list(self.xs.iter_errors(case['xml']))
         except Exception:
             self.valid = False
         self.parser_s = XPath2Parser(namespaces=dict(PNS), schema=self.proxy, variable_types={'v': 'item()'})
@@ -1387,6 +1432,7 @@ def eval_on(impl: Impl, info: dict, node, expr: str):
 
 def check_case(run: Run, case: dict, ans: str, impl: Impl) -> None:
     st = run.stats
+    CUR_VERSION[0] = case['version']
     A = parse_answer(ans)
     cid = {'xsd': case['xsd'], 'xml': case['xml'], 'version': case['version'], 'lib': case['lib']}
 
@@ -1611,6 +1657,7 @@ def compare(run: Run, cases: list[dict]) -> None:
 # ======================================================================================
 def fixed_schema(version: str = '1.0') -> tuple[Schema, dict]:
     """the ten-element probe of DESIGN.md section 5 (F20a-d) as a Schema object"""
+    CUR_VERSION[0] = version
     s = Schema(version)
     ilist = ('L', 'ilist', ('B', 'int'))
     myint = ('R', 'myint', ('B', 'int'), {'enum': None, 'min': None, 'max': 100})
@@ -1630,6 +1677,8 @@ def fixed_schema(version: str = '1.0') -> tuple[Schema, dict]:
           ('PE', el('s', ('B', 'string')), [], (0, 1)), ('PE', el('l', ilist), [], (0, 1)),
           ('PE', el('m', myint), [], (0, 1)), ('PE', el('u', u), [], (0, None)), ('PE', el('ul', ulist), [], (0, 1)),
           ('PE', el('um', um), [], (0, None)), ('PE', el('ms', mystr), [], (0, 1)),
+          ('PE', el('dd', ('B', 'date')), [], (0, None)), ('PE', el('dtm', ('B', 'dateTime')), [], (0, None)),
+          ('PE', el('gy', ('B', 'gYear')), [], (0, None)), ('PE', el('gym', ('B', 'gYearMonth')), [], (0, None)),
           ('PE', {'name': 'e', 'ty': ('TC', 0), 'nillable': False, 'default': None}, [], (0, None))]
     s.ctypes.append({'name': None, 'content': 'ce', 'own_particles': ps, 'own_attrs': [], 'base': None})
     s.root = {'name': 'root', 'ty': ('TC', 1), 'global': True, 'nillable': False, 'default': None}
@@ -1645,6 +1694,10 @@ def fixed_schema(version: str = '1.0') -> tuple[Schema, dict]:
         nd('d', ['1.50']), nd('d', []), nd('f', ['1e3']), nd('f', ['NaN']), nd('s', [' x ']), nd('l', ['1 2 3']),
         nd('m', ['5']), nd('u', ['7']), nd('u', ['true']), nd('u', ['zz']), nd('ul', ['1 true zz']),
         nd('um', ['7']), nd('um', ['x']), nd('ms', [' a   b ']),
+        nd('dd', ['-0001-01-01']), nd('dd', ['12345-06-07Z']), nd('dtm', ['-0044-03-15T12:00:00Z']),
+        nd('gy', ['-0044']), nd('gym', ['-0044-03']),
+    ] + ([nd('dd', ['0000-02-29']), nd('dtm', ['0000-01-01T00:00:00']), nd('gy', ['0000']), nd('gym', ['0000-05'])]
+         if version == '1.1' else []) + [
         nd('e', ['9'], [('a', '0')]), nd('e', ['8'], [('dflt', '4'), ('a', 'true')])]}
     return s, inst
 
@@ -1685,7 +1738,7 @@ def corpus_cases() -> list[dict]:
 
 def correspond(run: Run) -> None:
     rng = run.rng
-    n = run.scale(1500, 12000)
+    n = run.scale(1300, 12000)
     run.stats.rule = (
         'one case = (generated schema over 21 builtin atomic types with restrictions, lists, unions, '
         'simple-content extensions, nillable, defaults, xsi:type, substitution groups, wildcards; XSD 1.0 or 1.1) '
@@ -1753,13 +1806,157 @@ def replay(run: Run, path: str) -> int:
     data = json.loads(Path(path).read_text())
     fi = data.get('failing_input') or {}
     c = fi.get('case') or {}
-    print(json.dumps({k: c.get(k) for k in ('where', 'path', 'root_as', 'text', 'type', 'expr', 'version', 'lib')}, indent=1))
+    print(json.dumps({k: c.get(k) for k in ('where', 'path', 'root_as', 'text', 'type', 'expr', 'version', 'lib', 'history', 'node')}, indent=1))
     print('impl :', fi.get('impl'))
     print('model:', fi.get('model'))
     print('spec :', fi.get('spec'))
     print('xsd  :', c.get('xsd'))
     print('xml  :', c.get('xml'))
     return 0
+
+
+def translate(run: Run) -> dict:
+    """emit the live prototype tables of decoder._ATOMIC_VALUES (class name per builtin and XSD
+    version) as Lean literals -> lean/EPV/Gen/C20Protos.lean (theorems: EPV/Props/C20Tables.lean)"""
+    from harness.common import LEAN
+    from elementpath import decoder
+    out = ['/- GENERATED by harness/c20.py from the live elementpath/decoder.py -- do not edit -/',
+           'namespace EPV.Gen.C20']
+    info = {}
+    for ver, nm in (('1.0', 'protos10'), ('1.1', 'protos11')):
+        tbl = decoder._ATOMIC_VALUES[ver]
+        rows = sorted((k.split('}')[1], type(v).__name__) for k, v in tbl.items())
+        info[ver] = dict(rows)
+        out.append(f'def {nm} : List (String × String) := [' + ', '.join(f'("{a}", "{b}")' for a, b in rows) + ']')
+    out.append('end EPV.Gen.C20')
+    gen = LEAN / 'EPV' / 'Gen' / 'C20Protos.lean'
+    gen.parent.mkdir(exist_ok=True)
+    text = '\n'.join(out) + '\n'
+    if not gen.exists() or gen.read_text() != text:
+        gen.write_text(text)
+    return info
+
+
+# ======================================================================================
+# proxy-lifecycle histories: ONE proxy object over several evaluations
+# ======================================================================================
+def snapshot(impl: Impl, paths: list) -> dict:
+    """what one evaluation through impl.proxy observes: every node's type name / declaration flag /
+    typed value, and the selections of the paths (schema-bound parser)"""
+    CUR_VERSION[0] = impl.case['version']
+    try:
+        info = impl_records(impl)
+        recs = {k: {f: v[f] for f in v if f in ('T', 'E', 'M', 'N', 'D')} for k, v in info['recs'].items()}
+    except Exception as e:
+        recs = {'crash': impl_err(e)}
+    sels = [run_select(impl, xp, True, dummy) for dummy, xp, _ in paths]
+    return {'recs': recs, 'sel': sels}
+
+
+def history_case(run: Run, rng) -> None:
+    """unbuilt -> built transition, reuse after a failing evaluation, reuse across instances and
+    across lxml/ElementTree; every step is compared with a FRESH proxy on a fresh context (and the
+    unbuilt step with the Lean model's `anyTypeAll`)"""
+    import xmlschema
+    from xmlschema.xpath import XMLSchemaProxy
+    from elementpath import XPathContext
+    st = run.stats
+    version = rng.choice(['1.0', '1.1'])
+    sch = Gen(rng, version, True).schema()
+    cls = xmlschema.XMLSchema10 if version == '1.0' else xmlschema.XMLSchema11
+    cases = []
+    for _ in range(3):
+        inst = InstGen(rng, sch).elem(sch.root)
+        star = ('*',)
+        paths = [(True, R_(('c', ('n', clark('root'))), ('c', star))), (False, R_('//', ('c', star, ('p', 1))))]
+        cases.append(finish_case(sch, inst, paths, rng.choice(['lxml', 'etree']), 0.0))
+    try:
+        xs = cls(cases[0]['xsd'], build=False)
+    except Exception:
+        st.count('schema-rejected-by-xmlschema')
+        return
+    proxy = XMLSchemaProxy(xs)              # THE long-lived proxy
+    steps = []
+    start_unbuilt = rng.random() < 0.8
+    if start_unbuilt:
+        steps.append(('unbuilt', 0))
+        if rng.random() < 0.4:
+            steps.append(('unbuilt', 1))
+    steps.append(('build', None))
+    for k in rng.sample([0, 1, 2], 3):
+        steps.append(('built', k))
+        if rng.random() < 0.4:
+            steps.append(('fail', k))
+    hist_log = []
+    for kind, k in steps:
+        if kind == 'build':
+            try:
+                xs.build()
+            except Exception:
+                st.count('schema-rejected-by-xmlschema')
+                return
+            hist_log.append('build()')
+            continue
+        case = cases[k]
+        if kind == 'fail':
+            # an evaluation through the same proxy that raises
+            try:
+                impl = Impl(case, xs=xs, proxy=proxy)
+                root, nt, ctx = impl.tree(True, as_doc=False)
+                impl.parser_s.parse("xs:int('x') + 1").evaluate(ctx)
+            except Exception:
+                pass
+            hist_log.append(f'failing-eval(instance {k})')
+            st.count('history:failing-step')
+            continue
+        try:
+            got = snapshot(Impl(case, xs=xs, proxy=proxy), case['paths'])
+            want = snapshot(Impl(case, xs=xs, proxy=XMLSchemaProxy(xs)), case['paths'])
+        except Exception as e:
+            got, want = {'crash': impl_err(e)}, {'crash': 'none'}
+        hist_log.append(f'{kind}-eval(instance {k}, {case["lib"]})')
+        st.count('history:step:' + kind)
+        cid = {'xsd': case['xsd'], 'xml': case['xml'], 'version': version, 'lib': case['lib'],
+               'history': list(hist_log), 'where': 'proxy-history'}
+        if got != want:
+            diff = next((key for key in want.get('recs', {}) if got.get('recs', {}).get(key) != want['recs'][key]), 'sel')
+            run.disagree(Disagreement(dict(cid, node=diff), impl=json_s(got.get('recs', {}).get(diff, got.get('sel'))),
+                                      model=None, spec=json_s(want.get('recs', {}).get(diff, want.get('sel'))),
+                                      what='proxy-history', site='schema_proxy.AbstractSchemaProxy (state kept across evaluations)'))
+        if kind == 'unbuilt':
+            # the Lean model of the not-fully-valid branch
+            line = 'SU' + case['line'][1:].split(' Q ')[0] + ' Q 0'
+            PENDING_UNBUILT.append((line, got, cid))
+    st.count('history:cases')
+    st.case({'history': hist_log, 'xsd': cases[0]['xsd'][:300]}, nontrivial=True, sample_every=37)
+
+
+def json_s(x) -> str:
+    import json
+    return json.dumps(x, sort_keys=True, default=str)
+
+
+PENDING_UNBUILT: list = []
+
+
+def histories(run: Run, n: int) -> None:
+    PENDING_UNBUILT.clear()
+    for _ in range(n):
+        history_case(run, run.rng)
+    # the Lean model of the not-fully-valid branch, one driver call for all unbuilt steps
+    answers = run.driver('C20', [p[0] for p in PENDING_UNBUILT])
+    for (line, got, cid), ans in zip(PENDING_UNBUILT, answers):
+        A = parse_answer(ans)
+        for key, m in A.items():
+            if key[0] not in 'na':
+                continue
+            r = got.get('recs', {}).get(key)
+            mine = {'T': m['T'], 'M': m['M']}
+            if r is None or {'T': r['T'], 'M': r['M']} != mine:
+                run.disagree(Disagreement(dict(cid, node=key), impl=json_s(r), model=json_s(mine), spec=None,
+                                          what='unbuilt-typing-model', site='xpath_nodes.apply_schema (not fully valid)'))
+                break
+        run.stats.count('history:unbuilt-step-vs-model')
 
 
 def body(run: Run) -> int:
@@ -1777,13 +1974,16 @@ def body(run: Run) -> int:
         'path language: forward axes + attribute, name/*/node() tests, positional/existence/count/boolean predicates; '
         'no value comparisons or type tests in paths (those legitimately depend on the typed value)',
         'selection compared as sets of pre-order indices (document order of results is property C01)']
-    run.prove(['EPV.Props.C20'], extra_modules=[])
+    run.stats.extra['prototype_tables'] = translate(run)
+    run.trusted_base.append('translator harness/c20.py::translate (prints decoder._ATOMIC_VALUES class names as Lean literals)')
+    run.prove(['EPV.Props.C20', 'EPV.Props.C20Tables'], extra_modules=[])
     try:
         correspond(run)
+        histories(run, run.scale(60, 600))
     except DriverError as e:
         run.broken.append('driver:C20 ' + str(e)[:300])
     return run.finish('proof', shrink=shrink, search=search)
 
 
 if __name__ == '__main__':
-    cli(PROP, body)
+    cli(PROP, body, translate=translate)
